@@ -18,7 +18,7 @@ from worlds import batch
 
 PROPERTY = 'C11'
 LEVEL = 'exploration'
-RUNS = {'quick': 10000, 'thorough': 250000}
+RUNS = {'quick': 8000, 'thorough': 200000}
 RULE = ('scenario = one healthy generated RP66V1 / LIS / BIT file and a swarm configuration (Slice or Sample, channel subset incl. unknown names and the X name, '
         'reduction, field width, decimal format), converted by the real single-file converter in a fresh process; the LAS files are parsed by an independent '
         'reader of the ~A section and by LASRead, and compared with the content model. Non-trivial = a reach probe fires (step not dividing the frame count, '
@@ -28,13 +28,14 @@ REAL = ['TotalDepth.RP66V1.ToLAS.single_rp66v1_file_to_las', 'TotalDepth.LIS.ToL
         'TotalDepth.LAS.core.WriteLAS', 'TotalDepth.common.Slice', 'TotalDepth.util.bin_file_type', 'TotalDepth.LAS.core.LASRead (readability oracle)']
 STUB = ['datetime.utcnow / time.perf_counter -> SimClock', 'file-system calls logged by SimFS on a tmpfs scratch tree', 'input files -> independent producers']
 ASSUMPTIONS = [
+    'simulated machine: every process that runs library code has a 4 GiB address space (sim/runner.py MEMORY_LIMIT_BYTES); a request for more fails at once with MemoryError',
     'degenerate simulation dimension: single process, no injected fault',
     'values: |printed - expected| <= 0.5 unit of the last printed decimal (1+1e-9), expected = reduction applied to the model values in the channel dtype, widened to double',
     'BIT and LIS implied X values are compared with the same print tolerance plus the accumulated rounding of n additions',
     'Sample(N): at most N rows, strictly increasing source frames, first row is frame 0 (which frames a sample picks is C15)',
     'channel names are matched exactly as the format stores them (BIT/LIS mnemonics are 4 characters, blank padded)',
 ]
-PROBES = ['negative_step', 'x_not_resolved_by_format', 'empty_selection_skipped', 'step_not_dividing', 'sample_lt_frames', 'channel_subset', 'subset_unknown_name', 'multi_valued_reduced', 'value_wider_than_field', 'several_log_passes',
+PROBES = ['long_log_gt16384_rows', 'negative_step', 'x_not_resolved_by_format', 'empty_selection_skipped', 'step_not_dividing', 'sample_lt_frames', 'channel_subset', 'subset_unknown_name', 'multi_valued_reduced', 'value_wider_than_field', 'several_log_passes',
           'indirect_x', 'conv_bit', 'conv_rp66v1', 'conv_lis', 'single_frame_selected', 'subset_includes_x']
 CONVERTERS_ENABLED = ['bit', 'rp66v1', 'lis']
 
@@ -54,6 +55,10 @@ def generate(seed, tier):
     conv = rng.pick(CONVERTERS_ENABLED)
     world = batch.NATIVE_WORLD[conv]
     gen = {'world': world, 'seed': rng.getrandbits(32), 'frames': rng.pick([4, 9, 20, 40])}
+    long_log = conv == 'bit' and rng.chance(0.02)
+    if long_log:
+        # a full-length log: tens of thousands of rows in one LAS file (sizes are part of the swarm)
+        gen.update(frames=rng.pick([16385, 16500, 20000, 33000]), long=True, passes=1)
     by, fields, info = batch.file_content(gen)
     names = channel_names(conv, info)
     sl = rng.wpick([(3, None), (5, 'slice'), (2, 'sample')])
@@ -63,6 +68,8 @@ def generate(seed, tier):
             sl = ['slice', rng.pick([None, -1, 20, 5]), rng.pick([None, 0, 2, -30]), -rng.pick([1, 1, 2, 3, 4])]
     elif sl == 'sample':
         sl = ['sample', rng.pick([1, 2, 3, 5, 8, 64])]
+    if long_log:
+        sl = rng.pick([None, None, ['slice', None, None, 2], ['slice', 3, None, None]])
     if rng.chance(0.5) or not names:
         chans = []
     else:
@@ -70,7 +77,7 @@ def generate(seed, tier):
     cfg = {'slice': sl, 'channels': chans, 'reduce': rng.pick(['first', 'first', 'mean', 'median', 'min', 'max']),
            'width': rng.pick([16, 16, 12, 8, 20]), 'fmt': rng.pick(['.3f', '.3f', '.1f', '.6f', '.0f'])}
     ext = rng.pick(batch.EXT[world])
-    return {'world': 'convert', 'converter': conv, 'recurse': False, 'config': cfg, 'files': [{'path': 'f' + ext, 'gen': gen}],
+    return {'world': 'convert', 'converter': conv, 'recurse': False, 'config': cfg, 'files': [{'path': rng.pick(['f', 'f', 'well.v2', 'a_b', '.f', 'x y']) + ext, 'gen': gen}],
             'runs': [{'mode': 'alone', 'clock': {'base': 0.0}}]}
 
 
@@ -338,6 +345,8 @@ def _execute(scenario, res, br):
                 continue
         if len(rows) == 1:
             res.probe('single_frame_selected')
+        if len(rows) > 16384:
+            res.probe('long_log_gt16384_rows')
         if cfg['slice'] and cfg['slice'][0] == 'slice' and (cfg['slice'][3] or 1) < 0:
             res.probe('negative_step')
         if p.get('indirect'):
